@@ -57,6 +57,22 @@ DamageOps == <<
   [name |-> "content-after-document-end", kind |-> "stream", frag |-> <<"-", "-", "-", " ", "a", "\n", ".", ".", ".", " ", "b", "\n">>],
   [name |-> "handle-of-previous-document-bare", kind |-> "stream", frag |-> <<"%", "T", "A", "G", " ", "!", "e", "!", " ", "t", "a", "g", ":", "e", ":", "\n", "-", "-", "-", " ", "!", "e", "!", "x", " ", "a", "\n", ".", ".", ".", "\n", "!", "e", "!", "y", " ", "b", "\n">>],
   [name |-> "handle-of-previous-document-explicit", kind |-> "stream", frag |-> <<"%", "T", "A", "G", " ", "!", "e", "!", " ", "t", "a", "g", ":", "e", ":", "\n", "-", "-", "-", " ", "a", "\n", "-", "-", "-", " ", "!", "e", "!", "y", " ", "b", "\n">>],
+  [name |-> "flow-closer-not-deeper-anchored-entry", kind |-> "doc", frag |-> <<"-", " ", "&", "a", " ", "[", "x", ",", "\n", "]", "\n">>],
+  [name |-> "flow-closer-not-deeper-tagged-entry", kind |-> "doc", frag |-> <<"-", " ", "!", "t", " ", "[", "x", ",", "\n", "]", "\n">>],
+  [name |-> "flow-not-deeper-quoted-anchored-entry", kind |-> "doc", frag |-> <<"-", " ", "&", "a", " ", "{", "x", ":", " ", "1", ",", "\n", "\"", "y", "\"", ":", " ", "2", "}", "\n">>],
+  [name |-> "flow-not-deeper-nested-anchored-entry", kind |-> "doc", frag |-> <<"-", " ", "&", "a", " ", "[", "x", ",", "\n", "[", "y", "]", "]", "\n">>],
+  [name |-> "flow-closer-not-deeper-entry", kind |-> "doc", frag |-> <<"-", " ", "[", "x", ",", "\n", "]", "\n">>],
+  [name |-> "flow-closer-not-deeper-explicit-key", kind |-> "doc", frag |-> <<"?", " ", "[", "a", ",", "\n", "]", "\n", ":", " ", "c", "\n">>],
+  [name |-> "flow-not-deeper-quoted-explicit-key", kind |-> "doc", frag |-> <<"?", " ", "{", "a", ":", " ", "1", ",", "\n", "\"", "b", "\"", ":", " ", "2", "}", "\n", ":", " ", "c", "\n">>],
+  [name |-> "flow-not-deeper-anchored-entry-nested", kind |-> "doc", frag |-> <<"k", ":", "\n", " ", " ", "-", " ", "&", "a", " ", "{", "x", ":", " ", "1", ",", "\n", " ", " ", "\"", "y", "\"", ":", " ", "2", "}", "\n">>],
+  [name |-> "flow-closer-not-deeper-anchored-value", kind |-> "doc", frag |-> <<"k", ":", " ", "&", "a", " ", "[", "x", ",", "\n", "]", "\n">>],
+  [name |-> "reserved-directive-without-start-flow", kind |-> "stream", frag |-> <<"%", "F", "O", "O", " ", "x", "\n", "[", "b", "]", "\n">>],
+  [name |-> "reserved-directive-without-start-quoted", kind |-> "stream", frag |-> <<"%", "F", "O", "O", " ", "x", "\n", "\"", "s", "\"", "\n">>],
+  [name |-> "reserved-directive-without-start-plain", kind |-> "stream", frag |-> <<"%", "F", "O", "O", " ", "x", "\n", "b", "\n">>],
+  [name |-> "reserved-directive-without-start-blank-line", kind |-> "stream", frag |-> <<"%", "F", "O", "O", " ", "x", "\n", "\n", "a", ":", " ", "1", "\n">>],
+  [name |-> "reserved-directive-without-start-comment", kind |-> "stream", frag |-> <<"%", "F", "O", "O", " ", "x", "\n", "#", " ", "c", "\n", "-", " ", "a", "\n">>],
+  [name |-> "reserved-directive-without-start-empty", kind |-> "stream", frag |-> <<"%", "F", "O", "O", " ", "x", "\n">>],
+  [name |-> "reserved-directive-without-start-later-document", kind |-> "stream", frag |-> <<"-", "-", "-", " ", "a", "\n", ".", ".", ".", "\n", "%", "F", "O", "O", " ", "x", "\n", "[", "b", "]", "\n">>],
   [name |-> "content-after-document-end-2", kind |-> "stream", frag |-> <<"a", ":", " ", "b", "\n", ".", ".", ".", " ", "-", " ", "c", "\n">>] >>
 
 \* base: a well-formed stream ending with a line break (its text). placement: 0 = own document, 1 = nested
